@@ -198,6 +198,11 @@ def check_force(ctx, rng):
             dup = (k1, k2)
         t1 = sc.put_tree(prior)
         r0 = sc.checkout(t1, [existing], force=True)
+        if "ok" not in r0:
+            c0 = {"force_checkout": {"prior": {"/".join(k): v.decode("latin1") for k, v in prior.items()}, "existing": existing}}
+            ctx.case(c0)
+            ctx.oracle(False, c0, {"why": "forced checkout of a cached tree into an empty location failed", "result": r0})
+            return
         if dup is not None:
             victim = os.path.join(sc.ws, *dup[rng.randrange(2)])
             data = prior[dup[0]]
